@@ -188,6 +188,25 @@ class Harness:
         self.flags.add("ping")
         return out
 
+    def ev_goodbye(self, reliable):
+        """the peer's last packet on this circuit (DisableSimulator) carries the acknowledgements for what the client has outstanding:
+        those sends are acknowledged like by any other packet, whatever the client does with the circuit afterwards"""
+        outstanding = [i for i, r in self.client_sends.items() if r["reliable"] and r["state"] == "pending"][:8]
+        if not outstanding:
+            return None
+        pid = self.peer_next
+        self.peer_next += 1
+        exc = self._feed(_mk_peer_msg("DisableSimulator", pid, reliable, acks=outstanding))
+        out = []
+        if exc is not None:
+            out.append(("recv:raises:%s" % type(exc).__name__, "datagram_received raised %r for DisableSimulator" % (exc,)))
+        self._new_emissions()
+        self._apply_acks(outstanding)
+        out.extend(self._check_futures())
+        self.finished = True
+        self.flags.add("acks_on_teardown")
+        return out
+
     def ev_retransmit_with_acks(self, which, pick):
         """the peer retransmits a reliable packet the client has already handled and piggy-backs acknowledgements on that copy"""
         cands = sorted(p for p, i in self.peer.items() if i["reliable"] and self.arrivals[p] >= 1)
@@ -442,6 +461,8 @@ class Harness:
 
     def step(self, ev):
         k = ev[0]
+        if getattr(self, "finished", False):
+            return None
         if k == "recv":
             r = self.ev_recv(ev[1], ev[2] if len(ev) > 2 else 0)
         elif k == "rtx":
@@ -450,6 +471,8 @@ class Harness:
             r = self.ev_waiters(ev[1], ev[2], ev[3] if len(ev) > 3 else False)
         elif k == "ping":
             r = self.ev_ping(ev[1])
+        elif k == "goodbye":
+            r = self.ev_goodbye(ev[1])
         elif k == "rtxack":
             r = self.ev_retransmit_with_acks(ev[1], ev[2])
         elif k == "skip":
@@ -576,11 +599,12 @@ EV = st.one_of(
     st.tuples(st.just("skip"), st.booleans()), st.tuples(st.just("late")),
     st.tuples(st.just("waiters"), st.sampled_from(["session", "region"]), st.integers(0, 3), st.booleans()),
     st.tuples(st.just("ping"), st.sampled_from(["all", "first", "last"])),
+    st.tuples(st.just("goodbye"), st.booleans()),
     st.tuples(st.just("packr"), st.sampled_from(["all", "oldest", "unknown"])),
     st.tuples(st.just("csend_stale"), st.booleans()),
     st.tuples(st.just("rtxack"), st.integers(0, 3), st.sampled_from(["oldest", "all"])),
     st.tuples(st.just("ack"), st.sampled_from(["appended", "body", "both"]), st.sampled_from(["all", "oldest", "newest", "dup", "unknown", "recent"])),
-    st.tuples(st.just("tick"), st.sampled_from([3.1, 1.0, 3.0, 7.0])),
+    st.tuples(st.just("tick"), st.sampled_from([3.1, 1.0, 3.0, 7.0, 86401.0, 172802.5])),
     st.tuples(st.just("noise"), st.sampled_from(["malformed", "banned", "unknown_host"])),
 )
 WALK = st.tuples(st.booleans(), st.lists(EV, min_size=3, max_size=150), st.integers(0, 2)).map(
@@ -614,6 +638,26 @@ def run_shard(ctx, shard):
                 ctx.bulk(1, 1, {"budget_runs": 1, "timed_out": 1 if "timed_out" in h.flags else 0})
                 if res:
                     ctx.report({"alive": alive, "events": [list(e) for e in evs]}, res)
+        # heavy retransmission inside the duplicate-suppression window: n further packets, each arriving `copies` times (fewer than 1,000
+        # distinct ids in all), then the very first packet again
+        for n, copies in ((600, 2), (400, 3), (990, 1)):
+            evs = [("recv", True, 0)]
+            for _ in range(n):
+                evs.append(("recv", True, 1))
+                if copies > 1:
+                    evs.append(("rtx", -1, copies - 1, True))
+            evs.append(("rtx", 0, 1, True))
+            res, h = run_sequence(evs, True)
+            ctx.bulk(1, 1, {"window_runs": 1})
+            if res:
+                ctx.report({"alive": True, "events": [list(e) for e in evs[:3]] + [["...", n, copies]] + [list(evs[-1])], "window": [n, copies]}, res)
+        for tail in ([("goodbye", True)], [("csend", True), ("goodbye", False)]):
+            evs = [("recv", True, 0), ("csend", True)] + tail
+            for alive in (True, False):
+                res, h = run_sequence(evs, alive)
+                ctx.bulk(1, 1, {"budget_runs": 1})
+                if res:
+                    ctx.report({"alive": alive, "events": [list(e) for e in evs]}, res)
 
 
 def replay(ctx, case):
@@ -621,6 +665,15 @@ def replay(ctx, case):
         case = {"alive": case[0], "events": case[1]}
     h = Harness(case["alive"])
     res = []
+    if case.get("window"):
+        n, copies = case["window"]
+        evs = [("recv", True, 0)]
+        for _ in range(n):
+            evs.append(("recv", True, 1))
+            if copies > 1:
+                evs.append(("rtx", -1, copies - 1, True))
+        evs.append(("rtx", 0, 1, True))
+        case = dict(case, events=evs)
     for ev in case["events"]:
         r = h.step(tuple(ev))
         if r is None:
